@@ -85,5 +85,10 @@ for f in sorted(os.listdir(os.path.join(OUT, 'hand'))):
     if f.endswith('.pdl'):
         add('hand_' + f[:-4], open(os.path.join(OUT, 'hand', f)).read(), 'verif/corpus/hand/' + f, hand_opts.get(f[:-4]))
 
+# seeded random descriptions (tools/gen_random_pdl.py), committed under corpus/gen
+for f in sorted(os.listdir(os.path.join(OUT, 'gen'))):
+    if f.endswith('.pdl'):
+        add(f[:-4], open(os.path.join(OUT, 'gen', f)).read(), 'verif/corpus/gen/' + f + ' (tools/gen_random_pdl.py)')
+
 json.dump({'entries': entries}, open(os.path.join(OUT, 'index.json'), 'w'), indent=1)
 print(len(entries), 'entries')
